@@ -1,5 +1,5 @@
 use super::TypeInference;
-use crate::constraint::{Constraint, ConstraintReason};
+use crate::constraint::{Constraint, ConstraintReason, TypeError, TypeErrorKind};
 use crate::typed_ast::{TypedExpr, TypedExprKind};
 use crate::types::InferType;
 use aelys_syntax::{Expr, Span, StructFieldInit};
@@ -41,8 +41,22 @@ impl TypeInference {
         &mut self,
         name: &str,
         fields: &[StructFieldInit],
-        _span: Span,
+        span: Span,
     ) -> (TypedExprKind, InferType) {
+        if !self.type_table.has_struct(name) {
+            // a literal of a struct that is declared nowhere (fatal, like an unknown type
+            // in an annotation)
+            self.errors.push(TypeError {
+                kind: TypeErrorKind::Mismatch {
+                    expected: InferType::Dynamic,
+                    found: InferType::Struct(name.to_string()),
+                },
+                span,
+                reason: ConstraintReason::UnknownType {
+                    name: name.to_string(),
+                },
+            });
+        }
         let typed_fields: Vec<(String, Box<TypedExpr>)> = fields
             .iter()
             .map(|f| {
